@@ -22,10 +22,11 @@ int vw_in_mudlib_error_handler (void) { return in_mudlib_error_handler; }
 
 /* recorder */
 int vw_nerrors;                 /* errors raised since last reset */
+int vw_limit_contained;         /* same bits, for limit errors raised under a safe_apply context */
 int vw_limit_mask;              /* 1 eval cost, 2 too deep recursion, 4 value stack overflow, 8 "Can't catch ..." re-raise */
 char vw_last_error_text[200];
 char vw_first_limit_text[120];
-void vw_reset_errors (void) { vw_nerrors = 0; vw_limit_mask = 0; vw_last_error_text[0] = 0; vw_first_limit_text[0] = 0; }
+void vw_reset_errors (void) { vw_nerrors = 0; vw_limit_mask = 0; vw_limit_contained = 0; vw_last_error_text[0] = 0; vw_first_limit_text[0] = 0; }
 static void vw_record (const char *err) {
   int bit = 0;
   vw_nerrors++;
@@ -34,6 +35,10 @@ static void vw_record (const char *err) {
   else if (!strncmp (err, "***Too deep recursion", 21)) bit = 2;
   else if (!strncmp (err, "***Stack overflow", 17)) bit = 4;
   else if (!strncmp (err, "*Can't catch", 12)) bit = 8;
+  /* a limit error raised while the innermost error context is a safe_apply()/safe_call_function_pointer() of the driver (e.g. the master's
+   * object_name() called for sprintf("%O") from the master's error_handler()) is contained by that call by design: it aborts the callee,
+   * not the evaluation.  Only limit errors on their way to a catch or to the driver's entry count for "catch cannot swallow". */
+  if (bit && !vw_ec_top_is_catch () && vw_ec_depth () > 1) { vw_limit_contained |= bit; bit = 0; }
   if (bit && !vw_limit_mask) snprintf (vw_first_limit_text, sizeof vw_first_limit_text, "%s", err);
   vw_limit_mask |= bit;
 }
